@@ -152,7 +152,7 @@ func runRandom(tracePath, scratch string, seed int64, ntraces, steps int, sum *t
 		cfg := pdb.Config{
 			MaxDiff:    []int{1, 2, 3, 5, 8}[r.Intn(5)],
 			HistLimit:  []uint64{0, 0, 1, 2, 3, 5, 9}[r.Intn(7)],
-			BufSize:    []int{0, 150, 400, 1200, 4000, 1 << 22}[r.Intn(6)],
+			BufSize:    []int{0, 400, 1200, 4000, 1 << 22, 1 << 22, 1 << 22, 1 << 22}[r.Intn(8)],
 			Async:      r.Intn(2) == 0,
 			Trienode:   r.Intn(3) == 0,
 			Cancun:     r.Intn(2) == 0,
@@ -177,21 +177,29 @@ func runRandom(tracePath, scratch string, seed int64, ntraces, steps int, sum *t
 				}
 				n, touch, recreate := rn.RandomWorld(rn.E.WorldOfRoot(roots[j]), maxVal)
 				sig += "U" + rn.Update(j, n, touch, recreate)[:1]
-			case c < 78:
+			case c < 75:
 				rn.Commit(r.Intn(top + 1))
 				sig += "C"
 			case c < 90:
-				// rollback target: mostly something the database calls recoverable
-				var cands []pdb.World
+				// rollback target: mostly something the database calls recoverable, and among
+				// those mostly states still inside the write buffer (above the persistent id)
+				var cands, inbuf []pdb.World
+				pid := rn.PersistentID()
 				for _, wi := range rn.E.Reg.Order {
 					if ok, _ := rn.E.TDB.Recoverable(wi.Root); ok {
 						cands = append(cands, wi.W)
+						if rn.E.StateID(wi.Root) >= pid {
+							inbuf = append(inbuf, wi.W)
+						}
 					}
 				}
 				var w pdb.World
-				if len(cands) > 0 && r.Intn(4) != 0 {
+				switch {
+				case len(inbuf) > 0 && r.Intn(2) == 0:
+					w = inbuf[r.Intn(len(inbuf))]
+				case len(cands) > 0 && r.Intn(4) != 0:
 					w = cands[r.Intn(len(cands))]
-				} else {
+				default:
 					w = rn.E.Reg.Order[r.Intn(len(rn.E.Reg.Order))].W
 				}
 				if rn.Recover(w) {
